@@ -183,3 +183,83 @@ MUTANTS = [
     ("normalize_time: wall-clock tuple of a zone-aware date-time used", T, "            return calendar.timegm(time.utctimetuple())", "            return calendar.timegm(time.timetuple())", "refute", "normalize_time"),
     ("TOTP.key setter keeps the HMAC keyed with the old key", T, "        self._encrypted_key = self._keyed_hmac = None", "        self._encrypted_key = None", "refute", "TOTP.key"),
 ]
+
+
+# ---- _decode_bytes: "keys given in base32 or hex, with spaces, dashes or lower case, denote the same key" -- the separator
+#      cleaning is applied to the text BEFORE the format is looked at, so both encoded forms go through it ----
+_CLEAN = z3.Function("clean(spaces, dashes)", z3.StringSort(), z3.StringSort())
+
+
+def _db_setup(it, args):
+    from pyvc.values import SStr as _S
+    g = it.run.ghost
+    it.genv.vars["to_unicode"] = SStub(lambda i, a, k: a[0], "to_unicode", trusted="text given as text is returned as is")
+    it.genv.vars["_clean_re"] = SObj("_clean_re", fields={"sub": SStub(lambda i, a, k: _S(_CLEAN(i.to_z3(a[1])), "str"), "_clean_re.sub", trusted="regex: uninterpreted")})
+
+    def rec(name):
+        def f(i, a, k):
+            g["decoder"] = name
+            g["decoded"] = i.resolve(a[0])
+            return _S(z3.String("decoded key"), "bytes")
+        return f
+    it.genv.vars["base64"] = SObj("base64", fields={"b16decode": SStub(rec("hex"), "base64.b16decode", trusted="stdlib")})
+    it.genv.vars["b32decode"] = SStub(rec("base32"), "b32decode", trusted="C12: own contract")
+    return None
+
+
+def _db_post(fmt):
+    def post(it, env):
+        g = it.run.ghost
+        if g.get("decoder") != fmt:
+            return z3.BoolVal(False)
+        got = g["decoded"]
+        key = it.to_z3(env.lookup("key"))
+        was = it.spec
+        it.spec = True
+        try:
+            want = it.m_text_encode(SStr(_CLEAN(key), "str"), "utf-8")
+            if fmt == "hex":
+                want = it.m_text_upper(want)
+        finally:
+            it.spec = was
+        # (text or bytes: both decoders accept either; only the content is the property's business)
+        return it.to_z3(got) == it.to_z3(want)
+    return post
+
+
+from pyvc.values import SStr  # noqa: E402
+
+_DB_REF = """
+import base64
+from passlib.totp import _decode_bytes
+def attempt(f):
+    try:
+        return f()
+    except Exception:
+        return 'refused'
+def _clean(k):
+    return ''.join(c for c in k if c not in ' \\t\\n\\r\\x0b\\x0c-')
+def ref_hex(k):
+    return bytes.fromhex(_clean(k)) if all(c in '0123456789abcdefABCDEF' for c in _clean(k)) else attempt(lambda: 1 / 0)
+def ref_base32(k):
+    k = _clean(k).upper()
+    return base64.b32decode(k + '=' * (-len(k) % 8))
+"""
+
+for _fmt, _name in (("hex", "hex"), ("base16", "hex"), ("base32", "base32")):
+    CONTRACTS.append(Contract(
+        f"_decode_bytes[{_fmt}]", f"{T}::_decode_bytes",
+        params={"key": Str(), "format": Const(_fmt)},
+        setup=_db_setup,
+        raises={"UnicodeEncodeError": None},
+        ensures=[(f"the {_name} decoder receives the key text with separators removed (and upper-cased for hex), as bytes", _db_post(_name))],
+        replay=py_replay(_DB_REF, "r = (attempt(lambda: _decode_bytes(V['key'], %r)), attempt(lambda: ref_%s(V['key'])))" % (_fmt, _name), "exc is None and r[0] == r[1]",
+                         {"key": "e01c-630c 2184-b076-ce99" if _name == "hex" else "4aog gdbb qsyh ntuz"},
+                         search=lambda v, _n=_name: [dict(v, key=k) for k in (("e01c-630c 2184-b076-ce99", "E01C630C", " e0 1c ") if _n == "hex" else ("4aog gdbb qsyh ntuz", "4AOGGDBB", " 4aog-gdbb "))]),
+        descr="any key text; the cleaning regex and the decoders abstract",
+    ))
+
+MUTANTS += [
+    ("_decode_bytes: hex keys are only stripped at the ends, not cleaned of inner separators", T, "    key = _clean_re.sub(\"\", key).encode(\"utf-8\")  # strip whitespace & hypens\n    if format == \"hex\" or format == \"base16\":\n        return base64.b16decode(key.upper())", "    key = key.strip().encode(\"utf-8\")\n    if format == \"hex\" or format == \"base16\":\n        return base64.b16decode(key.upper())", "refute", "_decode_bytes"),
+    ("normalize_time: the epoch itself is taken for 'no time given'", T, "        if time is None:\n            return int(cls.now())", "        if not time:\n            return int(cls.now())", "hold", "normalize_time"),
+]
